@@ -48,7 +48,7 @@ func (c03) Components() map[string]string {
 }
 func (c03) Budget(tier string) int {
 	if tier == "thorough" {
-		return 40000
+		return 120000
 	}
 	return 700
 }
@@ -340,6 +340,7 @@ func (p c03) Run(sc *Scenario) *Result {
 		res.Count("panicking_programs", 1)
 		return res // a C02 matter
 	}
+	res.Mix(base...)
 	for _, l := range base {
 		if strings.HasPrefix(l, "outcome:error") {
 			res.Count("probe_program_ended_in_error_with_backtrace", 1)
